@@ -20,20 +20,20 @@ Open Scope Z_scope.
 (* ------------------------------------------------------------------------------------------------ *)
 
 (* window_size (per burst), self.n_tries, self.default_timeout *)
-Record config := { cf_window : Z; cf_tries : Z; cf_timeout : Z }.
+Record config := Cf { cf_window : Z; cf_tries : Z; cf_timeout : Z }.
 
 (* one scpcall: its identity (stands for all its fields and its callback) and its extra timeout *)
-Record cmd := { c_id : Z; c_extra : Z }.
+Record cmd := Cmd { c_id : Z; c_extra : Z }.
 
 (* a datagram read from the socket: the two fields send_scp_burst parses (rc, seq at offset
    SDP_HEADER_LENGTH + 2) and [d_src], which stands for the rest of its bytes.  The simulated machine writes
    there the number of the transmission it answers; the model never looks at it. *)
-Record dgram := { d_rc : Z; d_seq : Z; d_src : Z }.
+Record dgram := Dg { d_rc : Z; d_seq : Z; d_src : Z }.
 
 (* TransmittedPacket, keyed by its sequence number in outstanding_packets (dict in insertion order) *)
 Record entry := { e_seq : Z; e_cmd : Z; e_tries : Z; e_timeout : Z; e_deadline : Z }.
 
-Record event := { ev_data : list dgram; ev_time : Z }.
+Record event := Ev { ev_data : list dgram; ev_time : Z }.
 
 (* what the burst does to the world, in order.  OSend tx c s t: the tx-th sock.send of this connection
    carries command c with sequence number s while the clock reads t. *)
@@ -272,7 +272,7 @@ Definition burst (cf : config) (cmds : list cmd) (evs : list event) (k : conn) :
 (* Several calls on one connection (the clock may advance by [u_idle] before a call)                  *)
 (* ------------------------------------------------------------------------------------------------ *)
 
-Record call := { u_cf : config; u_cmds : list cmd; u_idle : Z; u_events : list event }.
+Record call := Call { u_cf : config; u_cmds : list cmd; u_idle : Z; u_events : list event }.
 
 Fixpoint run_conn (k : conn) (calls : list call) : list (list output * outcome * nat) :=
   match calls with
@@ -287,3 +287,46 @@ Fixpoint run_conn (k : conn) (calls : list call) : list (list output * outcome *
 (* a connection whose generator has already been drawn n times *)
 Definition conn_after (n : N) : conn :=
   {| k_seq := N.iter n seq_next 0; k_ntx := 0; k_now := 0; k_buf := [] |}.
+
+(* ------------------------------------------------------------------------------------------------ *)
+(* Comparison with the trace observed on the implementation (used by the correspondence harness)      *)
+(* ------------------------------------------------------------------------------------------------ *)
+
+Definition dgram_eqb (a b : dgram) : bool :=
+  (d_rc a =? d_rc b) && (d_seq a =? d_seq b) && (d_src a =? d_src b).
+
+Definition output_eqb (a b : output) : bool :=
+  match a, b with
+  | OSend t c s n, OSend t' c' s' n' => (t =? t') && (c =? c') && (s =? s') && (n =? n')
+  | OSelect t, OSelect t' => t =? t'
+  | ORecv d, ORecv d' => dgram_eqb d d'
+  | OCallback c d, OCallback c' d' => (c =? c') && dgram_eqb d d'
+  | _, _ => false
+  end.
+
+Definition outcome_eqb (a b : outcome) : bool :=
+  match a, b with
+  | Returned, Returned => true
+  | RaisedTimeout c, RaisedTimeout c' => c =? c'
+  | RaisedFatal rc None, RaisedFatal rc' None => rc =? rc'
+  | RaisedFatal rc (Some c), RaisedFatal rc' (Some c') => (rc =? rc') && (c =? c')
+  | NeedEvent, NeedEvent => true
+  | SeqSearchDiverges, SeqSearchDiverges => true
+  | _, _ => false
+  end.
+
+Fixpoint list_eqb {A} (eqb : A -> A -> bool) (l l' : list A) : bool :=
+  match l, l' with
+  | [], [] => true
+  | a :: l, a' :: l' => eqb a a' && list_eqb eqb l l'
+  | _, _ => false
+  end.
+
+Definition call_result_eqb (a b : list output * outcome * nat) : bool :=
+  match a, b with
+  | (tr, oc, n), (tr', oc', n') => list_eqb output_eqb tr tr' && outcome_eqb oc oc' && Nat.eqb n n'
+  end.
+
+(* does the model, run on the events the implementation consumed, produce what the implementation did? *)
+Definition agrees (k : conn) (calls : list call) (observed : list (list output * outcome * nat)) : bool :=
+  list_eqb call_result_eqb (run_conn k calls) observed.
